@@ -1,4 +1,5 @@
 import XmpProofs.LinFlow
+import XmpProofs.LinFlowTerm
 /-!
 # C18 — the reported duration is exact for modules with linear flow
 
@@ -18,9 +19,8 @@ C18_scan_eq_play : ∀ (m : LinMod), WF m → ∀ k < (scanSequences m).seqs.len
   ∧ ticks (e.run fuel) = r.durX                                     -- Σ frame_time = duration before truncation
   ∧ (∀ first entries of an order o: Σ frame_time before = (sc.info.getD o {}).timeX)
   ∧ the frame after the last one has loop_count = 1                 -- C18_loop_count
-C18_scan_terminates : ∀ m ep chain ctl info, m.rst < m.len → ep < m.len →
-  (scanModule m ep chain ctl info).fuelOut = false
 ```
+(`C18_scan_terminates` is proved in full, see below.)
 
 ## What is proved here
 
@@ -36,6 +36,9 @@ C18_scan_terminates : ∀ m ep chain ctl info, m.rst < m.len → ep < m.len →
   row loop and the player, started in agreement (same speed, tempo, exact time), produce the
   same row trace, end in agreement, and the player's Σ frame_time equals the advance of the
   scan's exact clock.  (`scanRows` on `fxs ++ rest` continues with `rest`.)
+* `C18_scan_terminates` — **full**: `scan_module`'s `while (42)` never exhausts the fuel
+  `(len+1)·514 + 1`, for every module, entry point, chain and prior `sequence_control` / `xxo_info`
+  (measure: number of orders whose row 0 is unvisited, then `514 − orders_since_last_valid`).
 * `C18_loop_count_partial` — `check_end_of_module` increments the loop counter exactly when the
   row entered is the scan's end point and the visit budget `end_point` (initialised with the
   scan's visit count `num`, one less per entry) is exhausted; frames that do not start a row
@@ -46,11 +49,10 @@ C18_scan_terminates : ∀ m ep chain ctl info, m.rst < m.len → ep < m.len →
 The composition across *orders*: `next_order` (skip of invalid orders / markers, wrap with
 restart / entry-point logic, `sequence_control` lookups) against the scan's `while (42)` head
 (`restartOrd`, foreign-order break, `scan_cnt[ord][0]` break), the jump row (`pbreak`/`jump`
-vs `ord2`), the identification of the scan's end point with the first re-entered row (needs the
-invariant `scan_cnt = multiplicity in trace`), and the fuel measure
-`(#orders with unvisited row 0)·514 + (514 − orders_since_last_valid)` for `C18_scan_terminates`.
+vs `ord2`), and the identification of the scan's end point with the first re-entered row (needs the
+invariant `scan_cnt = multiplicity in trace`).
 These parts are covered on every run by the correspondence only (the driver also evaluates
-`rowTrace (Play.run) = Scan trace` and `fuelOut = false` on every generated module).
+`rowTrace (Play.run) = Scan trace` on every generated module).
 -/
 namespace Xmp.LinFlow
 
@@ -147,6 +149,19 @@ example := C18_scan_eq_play_partial exE 0 0 [.speed 3, .delay 2, .tempo 150] [Fx
   exFresh (by simp [exSt]) (by simp [exSt]) (by show 0 + 3 ≤ 4; omega)
   (by intro _ r _ h; simp at h; show r ≠ 3; omega)
   rfl rfl rfl rfl rfl rfl (by simp [exP]) rfl rfl (by simp [exP, exSt, ScanSt.rowStart])
+
+/-- **The scan terminates**: the fuelled model of `scan_module`'s outer loop never runs out of
+`scanFuel m = (len+1)·514 + 1` iterations — each iteration either ends the scan, skips an order
+(at most 513 in a row: `orders_since_last_valid`), or scans a pattern whose first row was
+unvisited, which can happen at most `len` times. -/
+theorem C18_scan_terminates (m : LinMod) (ep chain : Nat) (ctl : List Nat) (info : List OrdInfo)
+    (hrst : m.rst < m.len) (hep : ep < m.len) :
+    (scanModule m ep chain ctl info).fuelOut = false :=
+  scanModule_fuelOut m ep chain ctl info hrst hep
+
+/-- instance: the example module (one order, restart 0, entry point 0) -/
+example : (scanModule exM 0 0 [] []).fuelOut = false :=
+  C18_scan_terminates exM 0 0 [] [] (by decide) (by decide)
 
 /-- `check_end_of_module`: the loop counter increments exactly at the scan's end point once the
 visit budget is used up; otherwise entering the end point costs one unit of the budget. -/
